@@ -104,4 +104,12 @@ type TObs interface {
 // Calls counts wrapper invocations per MethodNames index.
 var Calls [1024]atomic.Int64
 
-func hit(i int) { Calls[i].Add(1) }
+// Counting enables the call counters. It must be switched off (before any goroutine starts)
+// in race-detector workloads: atomic counters would add happens-before edges between goroutines.
+var Counting = true
+
+func hit(i int) {
+	if Counting {
+		Calls[i].Add(1)
+	}
+}
